@@ -54,6 +54,17 @@ impl FangsList {
         }
     }
 
+    /// take over the fangs in effect at the parent node that `self` doesn't have yet,
+    /// outside of the fangs only `self` has: fangs of an Ohkami apply to all routes under
+    /// its mount point, including those registered there by other Ohkamis
+    pub(super) fn inherit(&mut self, parent: &Self) {
+        if parent.0.iter().all(|(id, _)| self.0.iter().any(|(_id, _)| _id == id)) {
+            return
+        }
+        self.0.retain(|(id, _)| !parent.0.iter().any(|(_id, _)| _id == id));
+        self.0.extend(parent.0.iter().cloned());
+    }
+
     /// whether both lists hold the same fangs in the same order
     pub(super) fn is_same_as(&self, another: &Self) -> bool {
         self.0.len() == another.0.len() &&
@@ -412,6 +423,12 @@ impl Node {
                 }
                 Ok(())
             }
+        }
+    }
+
+    pub(super) fn inherit_fangs_to_children(&mut self) {
+        for child in &mut self.children {
+            child.fangses.inherit(&self.fangses)
         }
     }
 
